@@ -40,7 +40,12 @@ def effects(F, b, depth=1):
             if s["k"] == "assign" and s["lhs"]["l"] == 1 and s["lhs"].get("p"):
                 fs = tuple(e[2] for e in s["lhs"]["p"] if e[0] == "f")
                 if fs:
-                    out.add(("assign", fs))
+                    rv = s["rv"]
+                    is_none = rv["k"] == "agg" and rv.get("variant") == "None"
+                    if not is_none and rv["k"] == "use":
+                        oo = {x for x in pr.operand(rv["op"]) if x[0] != "via"}
+                        is_none = bool(oo) and all(x[0] == "agg" and x[2] == "None" for x in oo)
+                    out.add(("clear", fs) if is_none else ("assign", fs))
             elif s["k"] == "assign" and s["lhs"].get("p"):
                 # writes through a reference derived from self (e.g. `*duration = Some(..)` inside a match arm)
                 base = Prov(b).local(s["lhs"]["l"])
@@ -56,6 +61,9 @@ def normalise(eff, drop_fields=("timer",)):
         if e[0] == "call":
             nm = e[1]
             if nm in ("deref", "deref_mut", "as_ref", "as_mut", "drop"):
+                continue
+            if nm == "take" and e[2]:
+                out.add(("clear", e[2]))        # `x.take();` and `x = None;` are the same effect
                 continue
             out.add(("call", nm, e[2]))
         else:
@@ -131,17 +139,20 @@ def run(ctx):
         b = ops.get((role, "discard"))
         if b:
             e = effects(F, b)
-            ctx.check(("call", "take", ("self_time",)) in e and ("call", "take", ("start",)) in e, "R18.1", fnkey(b) + "#clears-span-and-start", loc(b),
+            en = normalise(e)
+            ctx.check(("clear", ("self_time",)) in en and ("clear", ("start",)) in en, "R18.1", fnkey(b) + "#clears-span-and-start", loc(b),
                       "discard does not clear both the stored span and the start instant (the drop that follows would still add a span): %s" % sorted(x for x in e if x[0] == "call"))
         b = ops.get((role, "overwrite"))
         if b:
             e = effects(F, b)
-            ctx.check(("call", "take", ("timer",)) in e, "R18.1", fnkey(b) + "#takes-accumulator", loc(b), "overwrite does not reset the stopwatch's accumulated duration")
-            ctx.check(not any(x[0] == "call" and x[1] == "take" and x[2] in (("self_time",), ("start",)) for x in e), "R18.1", fnkey(b) + "#keeps-own-span", loc(b), "overwrite discards the guard's own span")
+            en = normalise(e)
+            ctx.check(("clear", ("timer",)) in en, "R18.1", fnkey(b) + "#takes-accumulator", loc(b), "overwrite does not reset the stopwatch's accumulated duration")
+            ctx.check(not any(x[0] == "clear" and x[1] in (("self_time",), ("start",)) for x in en), "R18.1", fnkey(b) + "#keeps-own-span", loc(b), "overwrite discards the guard's own span")
     # Stopwatch::clear, Timer::stop/close, add_assign
     for b in find(F, MQ, T + "Stopwatch", "clear"):
         e = effects(F, b)
-        ctx.check(("call", "take", ("duration",)) in e and ("call", "take", ("start",)) in e, "R18.1", fnkey(b) + "#clears-duration-and-start", loc(b), "Stopwatch::clear does not take both duration and start")
+        en = normalise(e)
+        ctx.check(("clear", ("duration",)) in en and ("clear", ("start",)) in en, "R18.1", fnkey(b) + "#clears-duration-and-start", loc(b), "Stopwatch::clear does not take both duration and start")
     for b in find(F, MQ, T + "Timer", "stop"):
         e = effects(F, b)
         ctx.check(("assign", ("duration",)) in e and ("call", "elapsed", ("start",)) in e, "R18.1", fnkey(b) + "#stores-elapsed", loc(b), "Timer::stop does not store start.elapsed() as the duration")
